@@ -806,3 +806,131 @@ Proof.
   - cbn [mtrace map qsum]. rewrite sleeps_app, qsum_app, step_sleep, IH. reflexivity.
 Qed.
 
+
+(* ---- every level the motor is ever driven at ---- *)
+
+(* what the property says about the object, said about one level event; a sleep event is fine
+   when its duration is not negative *)
+Definition ev_ok (inv : bool) (e : mev) : Prop :=
+  match e with
+  | MLvl sp ap md =>
+      (-(1) <= sp /\ sp <= 1) /\ ap == (if inv then - sp else sp) /\
+      (md = Drive <-> ~ ap == 0)
+  | MSleep q => 0 <= q
+  end.
+
+Lemma apply_speed_ev m x :
+  -(1) <= speed m -> speed m <= 1 -> x == speed m ->
+  Forall (ev_ok (inverted m)) (snd (apply_speed m x)).
+Proof.
+  intros H1 H2 E. cbn. constructor; [|constructor]. cbn.
+  split; [split; assumption|]. split; [destruct (inverted m); rewrite E; reflexivity|].
+  destruct (Qeqb (if inverted m then - x else x) 0) eqn:Q.
+  - apply Qeqb_true in Q. split; [discriminate | intro N; contradiction].
+  - apply Qeqb_false in Q. split; [intros _; exact Q | reflexivity].
+Qed.
+
+Lemma set_speed_q_ev m q : Forall (ev_ok (inverted m)) (snd (set_speed_q m q)).
+Proof.
+  unfold set_speed_q. destruct (clampq_bounds q) as [B1 B2].
+  apply (apply_speed_ev (mkMotor (pins m) (Qred (clampq q)) (inverted m) (mmode m) (applied m) (ghost m))); cbn [speed].
+  - rewrite Qred_correct. exact B1.
+  - rewrite Qred_correct. exact B2.
+  - reflexivity.
+Qed.
+
+Lemma set_speed_q_inverted m q : inverted (fst (set_speed_q m q)) = inverted m.
+Proof. reflexivity. Qed.
+
+Lemma set_speed_q_inverted_g m q g : inverted (with_ghost (fst (set_speed_q m q)) g) = inverted m.
+Proof. reflexivity. Qed.
+
+Lemma halt_inverted_g m md g : inverted (with_ghost (fst (halt m md)) g) = inverted m.
+Proof. reflexivity. Qed.
+
+Lemma ramp_loop_ev ks : forall m start sv delay,
+  0 <= delay -> Forall (ev_ok (inverted m)) (snd (ramp_loop ks m start sv delay)).
+Proof.
+  induction ks as [|k ks IH]; intros m start sv delay Hd.
+  - constructor.
+  - rewrite ramp_loop_unfold. cbn [snd]. apply Forall_app. split; [apply set_speed_q_ev|].
+    apply Forall_app. split.
+    + destruct (Qltb 0 delay); constructor; [exact Hd | constructor].
+    + rewrite <- (set_speed_q_inverted m (start + sv * inject_Z k)). apply IH. exact Hd.
+Qed.
+
+Lemma halt_ev m md b : md <> Drive -> Forall (ev_ok b) (snd (halt m md)).
+Proof.
+  intro H. cbn. constructor; [|constructor]. cbn. split; [split; lra|].
+  split; [destruct b; reflexivity|]. split; [intro E; contradiction | intro N; exfalso; apply N; reflexivity].
+Qed.
+
+(* the direction flag the events of a call are to be read with: the one after the call for
+   invert(), the unchanged one for every other call *)
+Lemma step_ev m op :
+  motor_inv m -> Forall (ev_ok (inverted (mstate (mstep m op)))) (mevents (mstep m op)).
+Proof.
+  intros ((S1 & S2) & _ & _). destruct op as [v|ov| | | |t d|d v| | | |]; cbn [mstep]; try (apply Forall_nil).
+  - destruct (clamp_speed v) as [q|]; [|constructor].
+    rewrite ok_with_state, ok_with_events, set_speed_q_inverted_g. apply set_speed_q_ev.
+  - destruct (clamp_speed (dflt_back ov)) as [q|]; [|constructor].
+    rewrite ok_with_state, ok_with_events, set_speed_q_inverted_g. apply set_speed_q_ev.
+  - rewrite ok_with_state, ok_with_events. apply (halt_ev m Brake). discriminate.
+  - rewrite ok_with_state, ok_with_events. apply (halt_ev m Coast). discriminate.
+  - rewrite ok_with_state, ok_with_events.
+    apply (apply_speed_ev (mkMotor (pins m) (speed m) (negb (inverted m)) (mmode m) (applied m) (ghost m)));
+      cbn [speed]; [exact S1 | exact S2 | reflexivity].
+  - destruct (py_lt d (PI 0)) as [[|]|] eqn:E; try (apply Forall_nil).
+    destruct (clamp_speed t) as [target|]; [|constructor].
+    apply py_lt0_false in E as (qd & Hd & Hd0).
+    rewrite ok_with_state, ok_with_events. rewrite ramp_run_eq.
+    destruct (with_ghost_fields (fst (ramp_loop (zsteps 20) m (speed m) ((target - speed m) / inject_Z 20) (qval d / inject_Z 20))) LastOther)
+      as (_ & _ & G3 & _).
+    rewrite G3. destruct (ramp_loop_frame (zsteps 20) m (speed m) ((target - speed m) / inject_Z 20) (qval d / inject_Z 20)) as (_ & F2 & _).
+    rewrite F2. apply ramp_loop_ev. unfold qval. rewrite Hd. change (inject_Z 20) with 20.
+    apply Qle_shift_div_l; [reflexivity | lra].
+  - destruct (py_lt d (PI 0)) as [[|]|] eqn:E; try (apply Forall_nil).
+    destruct (clamp_speed v) as [q|]; [|constructor].
+    apply py_lt0_false in E as (qd & Hd & Hd0).
+    pose proof (set_speed_q_ev m q) as H1.
+    destruct (set_speed_q m q) as [m1 e1] eqn:E1.
+    assert (I1 : inverted m1 = inverted m) by (change m1 with (fst (m1, e1)); rewrite <- E1; reflexivity).
+    pose proof (halt_ev m1 Brake (inverted m)) as H2.
+    destruct (halt m1 Brake) as [m2 e2] eqn:E2.
+    assert (I2 : inverted m2 = inverted m1) by (change m2 with (fst (m2, e2)); rewrite <- E2; reflexivity).
+    rewrite ok_with_state, ok_with_events. cbn [fst snd] in *.
+    destruct (with_ghost_fields m2 LastStop) as (_ & _ & G3 & _). rewrite G3, I2, I1.
+    apply Forall_app. split; [exact H1|]. apply Forall_app. split.
+    + constructor; [|constructor]. cbn. unfold qval. rewrite Hd. exact Hd0.
+    + apply H2. discriminate.
+Qed.
+
+(* the same without reference to the direction flag *)
+Definition ev_sound (e : mev) : Prop :=
+  match e with
+  | MLvl sp ap md =>
+      (-(1) <= sp /\ sp <= 1) /\ (ap == sp \/ ap == - sp) /\ (md = Drive <-> ~ ap == 0)
+  | MSleep q => 0 <= q
+  end.
+
+Lemma ev_ok_sound b e : ev_ok b e -> ev_sound e.
+Proof.
+  destruct e as [sp ap md|q]; cbn; [|trivial].
+  intros (H1 & H2 & H3). split; [exact H1|]. split; [destruct b; [right | left]; exact H2 | exact H3].
+Qed.
+
+(* every level any history ever drives the motor at is sound, and no sleep is negative *)
+Lemma trace_ev ops : forall m, motor_inv m -> Forall ev_sound (mtrace ops m).
+Proof.
+  induction ops as [|op ops IH]; intros m Hinv.
+  - constructor.
+  - cbn [mtrace]. apply Forall_app. split.
+    + eapply Forall_impl; [|exact (step_ev m op Hinv)]. intros e He. exact (ev_ok_sound _ e He).
+    + apply IH. apply step_inv. exact Hinv.
+Qed.
+
+Lemma trace_ev_reachable i1 i2 en m0 pre ops :
+  motor_ctor i1 i2 en = inl m0 -> Forall ev_sound (mtrace ops (mrun pre m0)).
+Proof.
+  intro H. apply trace_ev. exact (proj1 (motor_reachable_inv i1 i2 en m0 pre H)).
+Qed.
